@@ -3,10 +3,10 @@
    Pairwise and the finer statements about standard aggregation: bounded -- complete
    enumeration of the symmetric graphs on <= 4 vertices, with and without stored diagonal;
    the bound is part of each statement. *)
-From Coq Require Import ZArith List Bool.
+From Coq Require Import ZArith List Bool Lia.
 Import ListNotations.
 Require Import PV.Model.GraphAlg PV.Model.Aggregate PV.Proofs.GraphSpec PV.Proofs.GraphBounded PV.Proofs.AggBounded.
-Require Import PV.Proofs.NaiveAggProofs PV.Proofs.StdAggPart.
+Require Import PV.Proofs.NaiveAggProofs PV.Proofs.StdAggPart PV.Proofs.PairwiseProofs PV.Proofs.PairwiseCompose.
 Open Scope Z_scope.
 
 (* naive aggregation, every graph with N vertices whose column indices are in range (symmetric or
@@ -66,6 +66,49 @@ Print Assumptions C12_bounded_naive.
 Theorem C12_bounded_pairwise : forall g, In g graphs_le4 -> ok_pairwise g = true.
 Proof. exact bounded_pairwise. Qed.
 Print Assumptions C12_bounded_pairwise.
+
+(* one pairwise matching, EVERY graph with N vertices whose column indices are in range (symmetric or not), every weight
+   vector: the kernel returns (its multimap of unaggregated nodes shrinks in every round, the fuel n+1 of the model is
+   never exhausted), every node gets an id in 1..c, and every aggregate 1..c has one or two members *)
+Theorem C12_pairwise_matching_pairs : forall (N : nat) (Ap Aj Sx y0 : list Z),
+  (forall i, 0 <= i < Z.of_nat N -> forall j, In j (nbrs Ap Aj i) -> 0 <= j < Z.of_nat N) ->
+  exists x y c, pairwise_aggregation (Z.of_nat N) Ap Aj Sx y0 = Some (x, y, c) /\
+    length x = N /\ 0 <= c /\
+    (forall k, 0 <= k < Z.of_nat N -> 1 <= get x k <= c) /\
+    (forall a, 1 <= a <= c -> (1 <= count_occ Z.eq_dec x a <= 2)%nat).
+Proof.
+  intros N Ap Aj Sx y0 H. destruct (pairwise_matching_correct N Ap Aj H Sx y0) as [[[x y] c] [E P]].
+  exists x, y, c. split; [exact E|exact P].
+Qed.
+Print Assumptions C12_pairwise_matching_pairs.
+
+(* m matchings composed as the Python driver composes them (T = T @ T_temp): if every matching puts at most two nodes into
+   an aggregate and the ids of each matching index the nodes of the next, an aggregate of the result has at most
+   2^m nodes (m = 1 + length xs) *)
+Theorem C12_pairwise_at_most_two_to_the_matchings : forall (xs : list (list Z)) (x1 : list Z),
+  (forall a, (count_occ Z.eq_dec x1 a <= 2)%nat) ->
+  (forall x, In x xs -> forall a, (count_occ Z.eq_dec x a <= 2)%nat) ->
+  chain x1 xs ->
+  forall b, (count_occ Z.eq_dec (fold_left compose xs x1) b <= 2 ^ S (length xs))%nat.
+Proof.
+  intros xs x1 H1 H2 Hc b. pose proof (pairwise_size_bound xs x1 2%nat H1 H2 Hc b) as H.
+  rewrite Nat.pow_succ_r'. exact H.
+Qed.
+Print Assumptions C12_pairwise_at_most_two_to_the_matchings.
+
+(* not vacuous: the path 0-1-2-3-4 with unit weights, two matchings *)
+Example C12_pairwise_example :
+  let Ap := [0; 1; 3; 5; 7; 8] in let Aj := [1; 0; 2; 1; 3; 2; 4; 3] in
+  match pairwise_aggregation 5 Ap Aj [1; 1; 1; 1; 1; 1; 1; 1] [0; 0; 0; 0; 0] with
+  | Some (x, _, c) => x = [1; 1; 3; 2; 2] /\ c = 3 /\ chain x [[1; 1; 2]] /\ fold_left compose [[1; 1; 2]] x = [1; 1; 2; 1; 1]
+  | None => False end.
+Proof.
+  cbv zeta.
+  assert (E : pairwise_aggregation 5 [0; 1; 3; 5; 7; 8] [1; 0; 2; 1; 3; 2; 4; 3] [1; 1; 1; 1; 1; 1; 1; 1] [0; 0; 0; 0; 0]
+              = Some ([1; 1; 3; 2; 2], [0; 4; 2; 0; 0], 3)) by (vm_compute; reflexivity).
+  rewrite E. split; [reflexivity|]. split; [reflexivity|]. split; [|vm_compute; reflexivity].
+  cbn [chain length]. split; [|exact I]. intros a H. cbn [In] in H. lia.
+Qed.
 
 Example C12_enumeration_size : length graphs_le4 = 150%nat.
 Proof. exact graphs_le4_count. Qed.
